@@ -56,6 +56,8 @@ type c11In struct {
 	Ddn        []uint32         `json:"ddn"`     // up4: UE addresses for which digests are injected while requests run
 	Sizes      map[string]int64 `json:"sizes"`   // up4: P4Info size overrides
 	WatchdogS  int              `json:"watchdog_s"`
+	Storm      []string         `json:"storm"` // node world: one Association Setup Request (hex) per NEW peer, all sent at about the same time
+	SerialPhases []int          `json:"serial_phases"` // phases in which the associations take turns (one finishes before the next starts)
 	DropConnMs []int            `json:"drop_conn_ms"` // up4: close the plug-in's P4Runtime connection at these times (ms after start)
 	Script     []c11Step        `json:"script"`       // a fixed choreography instead of free-running phases
 }
@@ -195,6 +197,90 @@ func (cw *c11World) up4Pools() map[string]int {
 	}
 }
 
+// storm: many new peers send their first datagram at about the same time.  Every peer has its own socket and its own
+// sequence number; it waits 3 s for answers and reports how many answers to its own request and how many answers to
+// somebody else's request it received.
+func (cw *c11World) storm(msgs []string) map[string]interface{} {
+	type res struct{ own, foreign int }
+	out := make([]res, len(msgs))
+	socks := make([]*net.UDPConn, len(msgs))
+	raws := make([][]byte, len(msgs))
+	for i, h := range msgs {
+		raws[i], _ = hex.DecodeString(h)
+		pc, err := net.DialUDP("udp", &net.UDPAddr{IP: net.IPv4(127, 0, 0, 1)}, cw.node.LocalAddr().(*net.UDPAddr))
+		if err != nil {
+			return map[string]interface{}{"err": err.Error()}
+		}
+		socks[i] = pc
+	}
+	var wg sync.WaitGroup
+	start := make(chan struct{})
+	for i := range msgs {
+		wg.Add(1)
+		go func(i int) {
+			defer wg.Done()
+			<-start
+			time.Sleep(time.Duration(i%16) * 40 * time.Microsecond)
+			_, wantSeq := c11Expect(raws[i])
+			if _, err := socks[i].Write(raws[i]); err != nil {
+				return
+			}
+			buf := make([]byte, 4096)
+			deadline := time.Now().Add(3 * time.Second)
+			for {
+				_ = socks[i].SetReadDeadline(deadline)
+				n, err := socks[i].Read(buf)
+				if err != nil {
+					return
+				}
+				if _, gs := c11Header(buf[:n]); gs == wantSeq {
+					out[i].own++
+				} else {
+					out[i].foreign++
+				}
+			}
+		}(i)
+	}
+	close(start)
+	wg.Wait()
+	own, none, foreign, dup := 0, 0, 0, 0
+	for _, r := range out {
+		if r.own == 0 {
+			none++
+		} else {
+			own++
+		}
+		if r.own > 1 {
+			dup++
+		}
+		foreign += r.foreign
+	}
+	conns := 0
+	cw.node.pConns.Range(func(k, v interface{}) bool { conns++; return true })
+	return map[string]interface{}{"peers": len(msgs), "answered": own, "unanswered": none, "foreign_answers": foreign, "duplicates": dup, "node_conns": conns}
+}
+
+// c11Header: message type and sequence number of a PFCP datagram (-1 when too short)
+func c11Header(b []byte) (int, int) {
+	if len(b) < 8 {
+		return -1, -1
+	}
+	off := 4
+	if b[0]&1 == 1 {
+		off = 12
+	}
+	if len(b) < off+3 {
+		return int(b[1]), -1
+	}
+	return int(b[1]), int(b[off])<<16 | int(b[off+1])<<8 | int(b[off+2])
+}
+
+// c11Expect: type and sequence number of the response that answers the request
+func c11Expect(req []byte) (int, int) {
+	t, s := c11Header(req)
+	return t + 1, s
+}
+
 // one request of one association; returns the observation
 func (cw *c11World) do(id int, ev c11Event) map[string]interface{} {
 	obs := map[string]interface{}{}
@@ -220,14 +306,29 @@ func (cw *c11World) do(id int, ev c11Event) map[string]interface{} {
 			obs["write_err"] = err.Error()
 			return obs
 		}
+		// the answer to THIS request: same sequence number, the request's response type; anything else that arrives
+		// (an answer the agent sent for another datagram) is counted and put aside.  The request is never sent twice.
+		wantType, wantSeq := c11Expect(raw)
 		buf := make([]byte, 65535)
-		_ = pc.SetReadDeadline(time.Now().Add(90 * time.Second))
-		n, err := pc.Read(buf)
-		if err != nil {
-			obs["blocked"] = true
-			obs["read_err"] = err.Error()
-		} else {
-			outs = append(outs, append([]byte{}, buf[:n]...))
+		deadline := time.Now().Add(120 * time.Second)
+		strays := 0
+		for {
+			_ = pc.SetReadDeadline(deadline)
+			n, err := pc.Read(buf)
+			if err != nil {
+				obs["blocked"] = true
+				obs["read_err"] = err.Error()
+				break
+			}
+			gt, gs := c11Header(buf[:n])
+			if gt == wantType && gs == wantSeq {
+				outs = append(outs, append([]byte{}, buf[:n]...))
+				break
+			}
+			strays++
+		}
+		if strays > 0 {
+			obs["strays"] = strays
 		}
 	} else {
 		c := cw.w.conns[id]
@@ -453,6 +554,11 @@ func c11Run(in c11In) (interface{}, error) {
 		out["script_trace"] = trace
 		nph = 0
 	}
+	var turn sync.Mutex
+	if len(in.Storm) > 0 && cw.node != nil {
+		out["storm"] = cw.storm(in.Storm)
+		nph = 0
+	}
 	hung := false
 phases:
 	for ph := 0; ph < nph; ph++ {
@@ -462,9 +568,19 @@ phases:
 			if ph >= len(c.Phases) {
 				continue
 			}
+			serial := false
+			for _, sp := range in.SerialPhases {
+				if sp == ph {
+					serial = true
+				}
+			}
 			wg.Add(1)
 			go func(c c11Conn, evs []c11Event) {
 				defer wg.Done()
+				if serial {
+					turn.Lock()
+					defer turn.Unlock()
+				}
 				r := rand.New(rand.NewSource(in.Seed + int64(c.ID)*7919 + int64(ph)))
 				for _, ev := range evs {
 					if in.MaxPauseUs > 0 {
